@@ -11,6 +11,7 @@ Same engine as C08 with a LaTeX context model (decided for LaTeXRenderer):
                    special character to an escaped form (composition of str.replace homomorphisms).
 Math spans (render_math) are passed through by design and set aside.
 """
+import re
 
 from ..interp import Interp, enumerate_paths, Raised, is_abstract
 from ..model import AnalysisError, ClassInfo, FuncInfo, loc
@@ -85,6 +86,39 @@ def check_verb(po, sk, holes):
     return None, None
 
 
+def rule_math_span(ctx, rep, cfgs):
+    """Math spans are passed through unescaped by design - which is only sound if what the token holds is
+    a math span and nothing else: the text the Math pattern hands to the token (its parse group) must be
+    $...$ or $$...$$ with no dollar inside (language inclusion; a back-reference is widened to its group)."""
+    from .. import rx
+    from ..interp import Interp, RxVal
+    model = ctx.model
+    rep.rule('R-TEX-MATH', 'the text passed through for a math span is exactly a dollar-delimited span (language inclusion)')
+    for cname in sorted(EXEMPT_CLASSES):
+        cands = [c for cfg in cfgs for c in cfg.span_types if getattr(c, 'name', None) == cname]
+        if not cands:
+            raise AnalysisError('anchor vanished: exempt class %s is not registered by LaTeXRenderer' % cname)
+        cls = cands[0]
+        it = Interp(model)
+        pv = it.class_attr(cls, 'pattern')
+        pg = it.class_attr(cls, 'parse_group')
+        rep.instance('R-TEX-MATH')
+        if not isinstance(pv, RxVal):
+            raise AnalysisError('anchor vanished: %s.pattern is not a regex literal' % cls.short)
+        if pg != 0:
+            raise AnalysisError('%s.parse_group is %r: only the whole match (0) is handled' % (cls.short, pg))
+        A = rx.ALPHABET_CORE
+        L = rx.Lang(pv.pattern, pv.flags, mode='full', alphabet=A, name=cls.short + '.pattern', relax_backrefs=True)
+        S = rx.Lang(r'\${1,2}[^$]+\${1,2}', re.DOTALL, mode='full', alphabet=A, name='spec:math span')
+        w = rx.witness([L], [S], A)
+        rep.obligation('R-TEX-MATH', w is None, {'class': cls.short, 'pattern': pv.pattern, 'witness': w})
+        if w is not None:
+            rep.find('R-TEX-MATH', cls.short + '.pattern', 'passes-through-more-than-a-math-span',
+                     'the %s pattern hands the text %r to the token, which render_math emits unescaped although it is not a '
+                     'dollar-delimited span: document text outside the span (e.g. backslashes in front of it) reaches LaTeX raw'
+                     % (cname, w), loc(model.unit_of(cls), cls.node), witness='A ' + w)
+
+
 def run(ctx):
     rep = ctx.report
     model = ctx.model
@@ -96,6 +130,7 @@ def run(ctx):
     cfgs = [c for c in ctx.configs() if c.label == 'LaTeXRenderer']
     if not cfgs:
         raise AnalysisError('no LaTeXRenderer configuration evaluated')
+    rule_math_span(ctx, rep, cfgs)
     n_holes = 0
     methods = set()
     for cfg in cfgs:
